@@ -103,6 +103,13 @@ fn project_program(names: &mut Names, p: &Program) -> Sexp {
     tagged("prog", vec![list(regions), list(ds), list(b)])
 }
 
+fn sorted_qubits<'a>(qs: impl Iterator<Item = &'a quil_rs::instruction::Qubit>) -> Vec<Sexp> {
+    let mut v: Vec<String> = qs.map(|q| q.to_quil_or_debug()).collect();
+    v.sort();
+    v.dedup();
+    v.into_iter().map(st).collect()
+}
+
 fn wrap_case(ctx: &mut Ctx, p: &Program, counter: &MemoryReference, target: &Target, n: u32) {
     let mut names = Names::default();
     let t = names.target(target);
@@ -113,11 +120,22 @@ fn wrap_case(ctx: &mut Ctx, p: &Program, counter: &MemoryReference, target: &Tar
             tagged("ref", vec![st(counter.name.clone()), nat(counter.index)]),
             t,
             nat(n as u64),
+            // the used-qubit cache of the input and the qubits of its body instructions (what add_instruction adds)
+            tagged("usedin", sorted_qubits(p.get_used_qubits().iter())),
+            tagged("bodyq", sorted_qubits(p.body_instructions().flat_map(|i| i.get_qubits()))),
         ],
     );
     ctx.case(input, || {
         let looped = p.wrap_in_loop(counter.clone(), target.clone(), n);
-        project_program(&mut names, &looped)
+        let listing = looped.to_instructions();
+        tagged(
+            "result",
+            vec![
+                project_program(&mut names, &looped),
+                tagged("used", sorted_qubits(looped.get_used_qubits().iter())),
+                tagged("listq", sorted_qubits(listing.iter().flat_map(|i| i.get_qubits()))),
+            ],
+        )
     });
 }
 
@@ -234,6 +252,20 @@ fn run(ctx: &mut Ctx) {
         ("DEFCAL X 0:\n\tNOP\nDEFCAL MEASURE 1:\n\tFENCE 1\nDEFCAL CZ 0 1:\n\tFENCE 0 1", "cnt", 0, 5),
         ("DEFCAL X 0:\n\tNOP\nX 0", "cnt", 0, 2),
         ("PRAGMA EXTERN \"OCTET\"", "cnt", 0, 2),
+        // boundary iteration counts and reference indices
+        ("X 0", "cnt", 0, u32::MAX),
+        ("X 0", "cnt", 0, 1 << 31),
+        ("X 0", "cnt", 0, (1 << 31) - 1),
+        ("X 0\nY 1", "cnt", 0, 65536),
+        ("X 0", "cnt", u64::MAX, 2),
+        ("X 0", "cnt", 2, 3),
+        ("DECLARE cnt INTEGER[4]\nX 0", "cnt", 3, 3),
+        // counter named like a region declared with SHARING / like a waveform / mixed case
+        ("DECLARE theta REAL[2]\nDECLARE cnt BIT[8] SHARING theta OFFSET 1 REAL\nX 0", "cnt", 0, 2),
+        ("DEFWAVEFORM cnt:\n\t1, 2\nX 0", "cnt", 0, 2),
+        ("DECLARE Cnt INTEGER\nDECLARE CNT INTEGER\nX 0", "cnt", 0, 2),
+        // calibrations holding qubits that the body does not use (the used-qubit cache after wrapping: C10)
+        ("DEFCAL X 5:\n\tNOP\nX 0", "cnt", 0, 3),
     ];
     for (text, name, idx, n) in corpus {
         let body_and_defs = parse_all(text);
@@ -242,6 +274,30 @@ fn run(ctx: &mut Ctx) {
         for n in [0u32, 1, *n] {
             wrap_case(ctx, &p, &mref(name, *idx), &fixed("loop"), n);
             wrap_case(ctx, &p, &mref(name, *idx), &placeholder("loop"), n);
+        }
+    }
+
+    // 1b. a long body (more than 64 instructions)
+    {
+        let text: String = (0..200).map(|i| format!("X {}\nMEASURE {} ro[0]\n", i % 7, i % 5)).collect();
+        let mut p = Program::new();
+        p.add_instructions(parse_all(&format!("DECLARE ro BIT\n{text}")));
+        for n in [0u32, 1, 2, 3] {
+            wrap_case(ctx, &p, &mref("cnt", 0), &placeholder("loop"), n);
+        }
+    }
+    // 1c. wrapping twice (nested loops): the input of the second call is the output of the first
+    for (text, _, _, _) in corpus.iter().take(4) {
+        let mut p = Program::new();
+        p.add_instructions(parse_all(text));
+        for (n1, n2) in [(2u32, 2u32), (3, 2), (2, 3), (1, 3), (3, 0), (0, 3)] {
+            let t1 = placeholder("inner");
+            let inner = p.wrap_in_loop(mref("c1", 0), t1.clone(), n1);
+            wrap_case(ctx, &inner, &mref("c2", 0), &placeholder("outer"), n2);
+            wrap_case(ctx, &inner, &mref("c2", 0), &fixed("outer"), n2);
+            // same counter / same start label as the inner loop: outside the premise, model must still agree
+            wrap_case(ctx, &inner, &mref("c1", 0), &placeholder("outer"), n2);
+            wrap_case(ctx, &inner, &mref("c2", 0), &t1, n2);
         }
     }
 
@@ -324,13 +380,26 @@ fn run(ctx: &mut Ctx) {
         }
         let idx = if rng.chance(1, 12) { 1 + rng.below(2) } else { 0 };
         let cname = if rng.chance(1, 6) { "acc" } else { "cnt" };
+        let body_label_placeholders: Vec<Target> = body
+            .iter()
+            .filter_map(|i| match i {
+                Instruction::Label(Label { target: t @ Target::Placeholder(_) }) => Some(t.clone()),
+                _ => None,
+            })
+            .collect();
         let target = match rng.below(4) {
             0 => fixed("L1"), // may collide with a body label
             1 => fixed("loop"),
+            // the SAME placeholder identity as a label of the body (premise violated)
+            2 if !body_label_placeholders.is_empty() && rng.chance(1, 4) => rng.pick(&body_label_placeholders).clone(),
             _ => placeholder("loop"),
         };
         let n = if rng.chance(1, 20) { 7 + rng.below(30) as u32 } else { rng.below(7) as u32 };
         let p = program_of(&defs, &body);
         wrap_case(ctx, &p, &mref(cname, idx), &target, n);
+        if rng.chance(1, 12) {
+            let inner = p.wrap_in_loop(mref(cname, idx), target.clone(), 2 + rng.below(2) as u32);
+            wrap_case(ctx, &inner, &mref("outer_cnt", 0), &placeholder("outer"), rng.below(4) as u32);
+        }
     }
 }
